@@ -111,8 +111,18 @@ class TokenParser(Parser):
         if enumtype == "flag":
             nextval = 1
 
-        values = {}
+        # A new line separates members just like a comma does, unless the member obviously continues
+        # E.g. the ``= value`` or an operand of the value expression is on the next line
+        lines = []
         for line in d["values"].splitlines():
+            stripped = line.strip()
+            if lines and stripped and (stripped[0] in "=+-*/%&|^<>()" or lines[-1].rstrip()[-1:] in tuple("=+-*/%&|^<>(~")):
+                lines[-1] += " " + stripped
+            else:
+                lines.append(line)
+
+        values = {}
+        for line in lines:
             for v in line.split(","):
                 key, _, val = v.partition("=")
                 key = key.strip()
